@@ -36,6 +36,7 @@ type Site struct {
 	// Ctx is the name of the context template of this site ("" = none); Base the ID of the site without context,
 	// BaseQuote its quoting form without the template.
 	Ctx, Base string
+	CtxCore   bool
 	BaseQuote QuoteFn
 	// Secondary: one more request shape around a position that a primary site already covers with the full hostile
 	// set; the quick tier gives it the reduced set (hostile.go), the thorough tier everything.
@@ -126,6 +127,7 @@ func expandContexts() {
 		for _, c := range ctxs {
 			d := s
 			d.Ctx = c.Name
+			d.CtxCore = c.Core
 			if c.Name != "" {
 				d.ID = s.ID + "@" + c.Name
 				d.Quote = withCtx(s.Quote, c)
